@@ -34,7 +34,7 @@
 (*   [kind |-> "score"|"id"|"field", f, desc, mfirst, mode |-> "first"|    *)
 (*    "min"|"max"].                                                        *)
 (***************************************************************************)
-EXTENDS Integers, Sequences, FiniteSets
+EXTENDS Integers, Sequences, FiniteSets, TLC
 
 Low  == -1         \* search.LowTerm  (sorts before every real value)
 High == 1000000    \* search.HighTerm (sorts after every real value)
@@ -92,8 +92,14 @@ Before(seen, i, j, sort) ==
 
 SameKeys(seen, i, j, sort) == LexOrder(seen[i], seen[j], sort, 1) = 0
 
-\* the hit numbers of H, fully sorted: position = 1 + number of hits before it
+\* the hit numbers of H, fully sorted by Before (a strict total order, so the
+\* result is unique: position = 1 + number of hits of H before it)
 SortAll(seen, H, sort) ==
+  SortSeq(SelectSeq([i \in 1..Len(seen) |-> i], LAMBDA i : i \in H),
+          LAMBDA i, j : Before(seen, i, j, sort))
+
+\* the same, spelled out (used to cross-check SortSeq in the small configs)
+SortAllByRank(seen, H, sort) ==
   [r \in 1..Cardinality(H) |->
      CHOOSE i \in H : Cardinality({j \in H : Before(seen, j, i, sort)}) = r - 1]
 
